@@ -86,12 +86,12 @@ Fixpoint wf (w : tv) : bool :=
       forallb (fun fv : N * tv => (fst fv <? 2 ^ 16) && wf (snd fv)) fs
       && match raw with [] => true | _ => false end
   | WMap kc vc es =>
-      lt31 (len es)
+      lt31 (len es) && (kc <? 128) && (vc <? 128)      (* a type code is a non-negative int8 *)
       && forallb (fun kv : tv * tv =>
                     (code_of (fst kv) =? kc) && (code_of (snd kv) =? vc)
                     && wf (fst kv) && wf (snd kv)) es
   | WList _ ec es =>
-      lt31 (len es) && forallb (fun e => (code_of e =? ec) && wf e) es
+      lt31 (len es) && (ec <? 128) && forallb (fun e => (code_of e =? ec) && wf e) es
   end.
 
 (* nesting depth: a scalar is 0 *)
@@ -220,6 +220,7 @@ Fixpoint get (d : nat) (c : N) (bs : list N) : pres tv :=
             | Some (h, r1) =>
                 let n := be_get h in
                 if neg32 n then PErr
+                else if negb ((kc <? 128) && (vc <? 128)) then PErr
                 else if n =? 0 then POk (WMap kc vc []) r1
                 else if negb (known_code kc && known_code vc) then PErr
                 else if short r1 (n * (min_size kc + min_size vc)) then PErr
@@ -239,6 +240,7 @@ Fixpoint get (d : nat) (c : N) (bs : list N) : pres tv :=
             | Some (h, r1) =>
                 let n := be_get h in
                 if neg32 n then PErr
+                else if negb (ec <? 128) then PErr
                 else if n =? 0 then POk (WList (c =? cSET) ec []) r1
                 else if negb (known_code ec) then PErr
                 else if short r1 (n * min_size ec) then PErr
